@@ -155,6 +155,7 @@ func intWidth(b *types.Basic) int {
 
 // sortOf returns the SMT sort of a scalar-classified type.
 func (vc *VC) sortOf(t types.Type) Sort {
+	t = vc.ts(t)
 	if s, ok := isAtomicType(t); ok {
 		return s
 	}
